@@ -8,21 +8,32 @@ from pathlib import Path
 from lib.common import COQ, REPO, enc_str, dec_str, dec_strs, model_run_parallel, src_hashes, write_if_changed
 
 PID = "C10"
-RULE = ("correspondence (three-way): extracted Coq model <-> section['slug'] in the doctree (docutils front end) <-> output of "
-        "myst_parser.cli.print_anchors on a scratch file, on exhaustive title sequences over {a, a-1, a-1-2, b, 'A b', `a`} "
-        "and random Unicode/punctuation/inline-markup titles, depths 0-7, default and custom slug functions (one raising); "
-        "default_slugify / plug-in slugify vs the model on every code point and random strings; search: uniqueness, GitHub "
-        "rule + least-suffix rule (independent Python), equality with the CLI, '#slug' links resolve to the own heading; "
-        "non-trivial = a document with a slug collision, a non-ASCII or markup title, or a custom function")
-TRUSTED = ["gen/c10_src.py + gen/c10_walk.py (round 3) regenerate default_slugify, compute_unique_slug (base.py), slugify, unique_slug (plug-in) "
-           "as Gallina code; domain mapping: str = code point list, `x in slugs` = list membership, slugs.add(u) = u :: slugs, "
-           "f'{a}-{i}' = a ++ '-' ++ show i, token_tree.to_tokens()[1].children = the (type, content) list, join-comprehension = flat_map, "
-           "slug function call may raise, while-fuel = |slugs|+1; refinement to the model proved in Sect/SlugSrcProofs.v",
-           "coq/Sect/Slug.v is a hand transcription of default_slugify/compute_unique_slug/generate_heading_target (base.py), "
-           "slugify/unique_slug/_anchor_func (mdit_py_plugins.anchors) and print_anchors (cli.py); the step sequence and the regex "
-           "class of both slugify functions are regenerated from the sources (gen/c10_unicode.py)",
-           "Unicode tables (\\w, isspace, lower) generated from the running interpreter; capital sigma (context-sensitive lower) is "
-           "outside the model (fail-closed: the runner answers !unsupported)",
+RULE = ("gen: Unicode tables (\\w, isspace, lower) of the running interpreter, regex class and step sequence of both slugify functions, "
+        "and the CODE of default_slugify / compute_unique_slug (base.py), slugify / unique_slug / _anchor_func / selected_levels "
+        "(anchors plug-in) and print_anchors' arguments and filter (cli.py) are re-translated into Gallina on every run (fail-closed) and "
+        "proved equal to the model; correspondence (three-way): extracted Coq model <-> section['slug'] + heading_slug warnings in the "
+        "doctree <-> output of myst_parser.cli.print_anchors on a scratch file, on exhaustive title sequences over {a, a-1, a-1-2, b, "
+        "'A b', `a`} (length <= 4 quick / 5 thorough), random Unicode/punctuation/inline-markup titles, depths 0-7, default and custom "
+        "slug functions (one raising), configured through every entry point (settings object, docutils option strings, "
+        "MdParserConfig constructor, the document's front matter; Sphinx conf.py in the thorough tier); both slugify functions vs "
+        "the model on every code point and random strings; docutils set_id vs the model on the section ids of every document; "
+        "search: uniqueness, GitHub rule + least-suffix rule (independent Python), equality with the CLI, '#slug' links resolve to "
+        "the own heading, invalid import strings, renderer reuse; non-trivial = a document with a slug collision, a non-ASCII or "
+        "markup title, a custom function or a non-default entry point")
+TRUSTED = ["Coq 8.16.1 kernel; the statements of coq/Props/C10.v and the specifications SuffixRule / SeqRule (Sect/SlugProofs.v)",
+           "gen/c10_unicode.py: Unicode tables generated from the running interpreter (capital sigma, the only context-sensitive lower(), is "
+           "outside the model: the runner answers !unsupported), regex class parser, step-sequence reader",
+           "gen/c10_walk.py + gen/c10_src.py + gen/c10_cli.py (own fail-closed walkers) regenerate default_slugify, compute_unique_slug "
+           "(base.py), slugify, unique_slug, selected_levels and the _anchor_func loop (plug-in), print_anchors' plug-in arguments and level "
+           "filter (cli.py); domain mapping: str = code point list, `x in slugs` = list membership, slugs.add(u) = u :: slugs, set() = [], "
+           "f'{a}-{i}' = a ++ '-' ++ show i, token_tree.to_tokens()[1].children / state.tokens[idx+1].children = the (type, content) list, "
+           "the token stream = the list of its heading_open tokens, join-comprehension = flat_map, `level in list(range(a, b))` = a <= "
+           "level < b, token.attrSet('id', s) = output Some s, args.level = level, the slug function call may raise, while-fuel = |slugs|+1, "
+           "the `if permalink:` block is dropped (default False, not passed by the CLI); refinement proved in Sect/SlugSrcProofs.v and "
+           "Sect/AnchorsCliProofs.v",
+           "hand transcription (checked by correspondence, not regenerated): generate_heading_target's slug part (depth test, try/except, "
+           "_heading_slugs store) in coq/Sect/Slug.v; docutils set_id in coq/Sect/SlugIds.v (make_id external)",
+           "coq/Refs/Anchors.v + AnchorsProofs.v (C09 builder): model of ResolveAnchorIds.apply used by C10_resolvable",
            "markdown-it-py: the inline children (type, content) of a heading are taken from the real parser on both sides"]
 ORACLES = {"O_mdit_inline": "markdown-it's inline token children of a heading (text / code_inline / other) are the same objects for the "
                             "renderer (SyntaxTreeNode.to_tokens) and the plug-in: exercised by the three-way correspondence on markup titles",
@@ -811,14 +822,27 @@ def replay(ctx, data):
     return 0 if ok else 1
 
 
-LEVEL_TEXT = ("Proof (Coq): for every base slug and set of existing slugs the renderer's and the plug-in's uniqueness loops terminate "
-              "within |slugs|+1 iterations (pigeonhole on injectivity of decimal printing) and return the base slug or base-k for the "
-              "least free k>=1; for every heading sequence, depth and slug function the assigned slugs are pairwise distinct, follow "
-              "the least-suffix rule, skip headings deeper than heading_anchors, turn a raising slug function into a warning without "
-              "slug, look up to their own heading, and (default function) equal the myst-anchors output. Tied to the code by "
-              "regenerated slugify shape/regex class/Unicode tables and a three-way differential correspondence on every run.")
-LEVEL_NOTE = ("Trusted: Coq kernel; transcription of the loops (checked by correspondence); markdown-it inline tokenisation (oracle, same "
-              "tokens on both sides); C10_resolvable composes the slug assignment with the C09 builder's model of ResolveAnchorIds.apply "
-              "(coq/Refs/Anchors.v) and a model of docutils set_id (make_id external); C10_matches_cli is partial: exactly the titles with an "
-              "ASCII space in their stripped edges disagree (C10_slug_agree_iff, open finding); capital sigma titles are outside the model. "
-              "Thorough tier repeats the correspondence through in-process Sphinx builds (slugs, env.metadata myst_slugs, '#slug' links).")
+LEVEL_TEXT = ("Proof (Coq 8.16, 25 theorems, all closed under the global context). FULL, for every input without bound: "
+              "C10_slug_rule (default slug = filter(class) o (space -> hyphen) o lower; only word characters, CJK and '-' survive); "
+              "C10_unique_terminates (renderer's and plug-in's loops return within |slugs|+1 iterations - pigeonhole on injectivity of "
+              "decimal printing); C10_suffix_rule (base slug if free, else base-k for the least free k >= 1); C10_document_rule, "
+              "C10_slugs_nodup, C10_depth, C10_custom_func (any heading sequence, depth, slug function incl. raising ones); "
+              "C10_resolvable_model + C10_resolvable (composition with the C09 model of ResolveAnchorIds: '#s' gets the id of the heading "
+              "that owns s, no warning / pending xref, absent an explicit target of the same name); C10_set_id_fresh, "
+              "C10_section_ids_distinct (docutils set_id model); C10_edge_decomposition, C10_slug_agree_iff (exact disagreement set of "
+              "the two slugify functions). TIED TO REGENERATED CODE: C10_source_shape, C10_slugify_src, C10_compute_unique_slug_src, "
+              "C10_suffix_rule_src, C10_slugs_nodup_src, C10_document_rule_src, C10_plugin_unique_slug_src, C10_print_anchors_src, "
+              "C10_matches_cli_src_partial. PARTIAL + REFUTED: C10_matches_cli_partial (renderer anchors = myst-anchors output for "
+              "documents whose titles have no ASCII space in their stripped edges - by C10_slug_agree_iff exactly the titles on which "
+              "the slugify functions agree) with C10_matches_cli_refuted; C10_suffix_rule_refuted_before_repair documents the repaired "
+              "cumulative-suffix defect.")
+LEVEL_NOTE = ("Open finding (KNOWN-FINDING on every run): slug:differs-from-cli:untrimmed-title - the renderer's default_slugify lacks the "
+              "plug-in's strip(); a title whose text+code content has an ASCII space at an edge gets one extra '-' per such space "
+              "(C10_edge_decomposition); the one-token repair breaks the pinned test test_references and was reverted. Fixed during the "
+              "work: 0c90a62 (compute_unique_slug suffixes the base slug). Oracle / trusted parts: generate_heading_target's slug part and "
+              "docutils set_id are hand-written models tied by correspondence; make_id, markdown-it inline tokenisation and the docutils "
+              "transform pipeline are oracles; ResolveAnchorIds is the C09 builder's model (exercised end to end by the resolvability "
+              "search and the Sphinx correspondence). Limits: capital sigma titles are outside the model (still searched on the "
+              "implementation); myst-anchors has no option for a slug function or front matter and does not see headings inside directive "
+              "bodies or included files, so the CLI comparison covers the default function on plain files only; custom slug functions "
+              "returning non-strings are not modelled; cross-document anchors under Sphinx are C12.")
